@@ -172,6 +172,7 @@ def script(cid, case):
     # final phase: the parse lines are appended by the evaluation-independent rule below
     names = _final_names(case)
     letters = sorted({c[1] for c in case["calls"] if c[0] == "s" and len(c[1]) == 1})
+    L.append("PARSE V")      # the std::vector<user_input> overload refuses an ambiguous parser, too
     L.append("PARSE A")
     for n in names:
         L.append("PARSE A " + hx(b"--" + n))
@@ -298,6 +299,17 @@ def evaluate(case, lines, S):
             "pos": None, "greedy": False}
     names = _final_names(case)
     lts = sorted({c[1] for c in case["calls"] if c[0] == "s" and len(c[1]) == 1})
+    lv = nxt("P")
+    S.counters["final-parses"] += 1
+    obv = parse_observed(lv)
+    if clash and obv.exc != "parser_error":
+        S.violation("letter-clash:parse-did-not-refuse:vector-overload",
+                    "two options share a letter after %s but parse(std::vector<user_input>{}) gave %s" %
+                    (calls_txt, lv[:200]), case)
+        return
+    if not clash and obv.exc == "parser_error":
+        S.violation("vector-overload:refused-without-a-clash", "after %s: %s" % (calls_txt, lv[:200]), case)
+        return
     vectors = [[]]
     for n in names:
         vectors += [[b"--" + n], [b"--" + n + b"=v"]]
